@@ -536,16 +536,22 @@ func init() {
 		id:    "C13",
 		level: "exploration",
 		rule: "the C04-C07 scripts (random and directed: spawn, user messages, stop, poison, crash, restart, replay of the restart buffer, budget exhausted, parent shutdown of children) run with a middleware chain of length 0..4 whose layers log enter and (deferred) exit; " +
-			"the interleaved log must be a concatenation of well nested blocks enter0..enter(n-1) recv exit(n-1)..exit0 showing the same message and sender at every layer; distinct by (chain length, shape of the expected trace)",
+			"the interleaved log must be a concatenation of well nested blocks enter0..enter(n-1) recv exit(n-1)..exit0 showing the same message and sender at every layer; filter mode: a chain [tracer, filter, tracer] whose filter swallows a PRNG choice of lifecycle messages and user messages - a swallowed delivery must end at the filter (receiver and inner layer never run for it), any other runs every layer once; distinct by (chain length, shape of the expected trace) / (what the filter swallows, failures, kind of stop)",
 		assumptions: []string{"a nil sender on lifecycle deliveries is not demanded (the statement does not)", "same reference model and gate technique as C04"},
 		modes: func(tier string, seed int64) []modeSpec {
 			n := 800
 			if tier == "thorough" {
 				n = 20000
 			}
-			return []modeSpec{{name: "mw", n: n, perChild: n / 16, timeout: 20 * time.Minute}}
+			return []modeSpec{
+				{name: "mw", n: n, perChild: n / 16, timeout: 20 * time.Minute},
+				{name: "filter", n: n / 2, perChild: n / 32, timeout: 20 * time.Minute},
+			}
 		},
 		run: func(c *caseCtx) caseResult {
+			if c.mode == "filter" {
+				return c13Filter(c)
+			}
 			var spec *scriptSpec
 			switch c.n % 4 {
 			case 0:
